@@ -1,39 +1,11 @@
-import CedarVerif.Cedar.Expr
+import CedarVerif.Cedar.ExprBeq
 /-
 Syntactic operations on expressions used by the C08 model: structural equality (Rust: derived `PartialEq`
 ignoring source locations), slot substitution, the slots occurring in an expression.  Import-free.
 -/
 namespace Cedar
 
-/-! ### structural equality of expressions (Rust: derived `PartialEq` ignoring source locations) -/
-mutual
-def Expr.beq : Expr → Expr → Bool
-  | .lit a, .lit b => a == b
-  | .var a, .var b => a == b
-  | .slot a, .slot b => a == b
-  | .unknown n t, .unknown n' t' => n == n' && t == t'
-  | .ite a b c, .ite a' b' c' => Expr.beq a a' && Expr.beq b b' && Expr.beq c c'
-  | .and a b, .and a' b' => Expr.beq a a' && Expr.beq b b'
-  | .or a b, .or a' b' => Expr.beq a a' && Expr.beq b b'
-  | .unaryApp o a, .unaryApp o' a' => o == o' && Expr.beq a a'
-  | .binaryApp o a b, .binaryApp o' a' b' => o == o' && Expr.beq a a' && Expr.beq b b'
-  | .call f xs, .call f' xs' => f == f' && Expr.beqList xs xs'
-  | .getAttr a k, .getAttr a' k' => Expr.beq a a' && k == k'
-  | .hasAttr a k, .hasAttr a' k' => Expr.beq a a' && k == k'
-  | .like a p, .like a' p' => Expr.beq a a' && p == p'
-  | .is a t, .is a' t' => Expr.beq a a' && t == t'
-  | .set xs, .set xs' => Expr.beqList xs xs'
-  | .record kvs, .record kvs' => Expr.beqKVs kvs kvs'
-  | _, _ => false
-def Expr.beqList : List Expr → List Expr → Bool
-  | [], [] => true
-  | x :: xs, y :: ys => Expr.beq x y && Expr.beqList xs ys
-  | _, _ => false
-def Expr.beqKVs : List (String × Expr) → List (String × Expr) → Bool
-  | [], [] => true
-  | (k, x) :: xs, (k', y) :: ys => k == k' && Expr.beq x y && Expr.beqKVs xs ys
-  | _, _ => false
-end
+-- structural equality `Expr.beq` is defined in ExprBeq.lean (shared with the typechecker model)
 
 /-! ### substitution (the static policy obtained by writing the linked entity in place of each slot) -/
 
